@@ -35,8 +35,8 @@ META = {
         "reference policy: decided iff all finished, or successes>=min_successful, or failures exceed the configured tolerance, or (no tolerance configured and >=1 failure: fail-fast, as the tests pin)",
     ],
     "budget": {
-        "quick": {"shards": 4, "random_cases": 220, "race_cases": 120, "min_nontrivial": 60},
-        "thorough": {"shards": 16, "random_cases": 6000, "race_cases": 3000, "min_nontrivial": 2500},
+        "quick": {"shards": 4, "random_cases": 220, "race_cases": 200, "bounded_runs": 600, "min_nontrivial": 60},
+        "thorough": {"shards": 16, "random_cases": 6000, "race_cases": 3000, "bounded_runs": 5000, "min_nontrivial": 2500},
     },
 }
 
@@ -262,7 +262,8 @@ def race_cases(draw):
         "c09": {"path": "root/0", "n": n, "eff": norm_cfg(comp), "truth": truth, "mc": None, "kinds": kinds, "is_map": False},
         "backend": {"response": "delta"}, "plan": {"crashes": []},
         "sched": [draw(st.one_of(st.builds(lambda sd: {"mode": "walk", "seed": sd, "stick": 0.0}, st.integers(0, 2**31)),
-                                 st.builds(lambda sd, d: {"mode": "pct", "seed": sd, "depth": d, "horizon": 2500}, st.integers(0, 2**31), st.integers(1, 3))))],
+                                 st.builds(lambda sd, d, h: {"mode": "pct", "seed": sd, "depth": d, "horizon": h}, st.integers(0, 2**31), st.integers(1, 3), st.sampled_from([600, 1500, 3000])),
+                                 st.builds(lambda sd, d, h: {"mode": "pct", "seed": sd, "depth": d, "horizon": h}, st.integers(0, 2**31), st.integers(1, 2), st.sampled_from([600, 1500, 3000]))))],
         "line": ["executor", "models"],
     }
 
@@ -270,6 +271,34 @@ def race_cases(draw):
 def _race_stage(ctx):
     WC.run_generated(ctx, race_cases(), PROPS, n_cases=ctx.budget.get("race_cases", 120), nontrivial=nontrivial, classes=classes,
                      extra_monitors=(mon_c09,), seed_offset=23)
+
+
+def _bounded_race_stage(ctx):
+    """For a 3-branch parallel with an early-exit policy: one run per executed source line of executor.py/models.py in
+    which the task executing that line is preempted for as long as anything else can run - the schedule shape of the
+    races between two finishing branches' bookkeeping."""
+    import json as _json
+
+    from .. import detsched as D
+
+    if ctx.shard % 2 == 1 and ctx.nshards > 1:
+        return
+    kinds = ["ok", "ok", "ok"] if ctx.shard % 4 == 0 else ["fail", "fail", "fail"]
+    comp = {"min": 2, "tol": 3, "pct": None} if kinds[0] == "ok" else {"min": None, "tol": 1, "pct": None}
+    branches, truth = [], []
+    for i, k in enumerate(kinds):
+        if k == "ok":
+            branches.append([{"op": "step", "beh": {"kind": "ret", "v": i}, "sem": "least", "retry": {"kind": "none"}}])
+            truth.append(("ok", i))
+        else:
+            branches.append([{"op": "step", "beh": {"kind": "always_fail", "err": "UserError", "msg": f"err-{i}"}, "sem": "least", "retry": {"kind": "none"}}])
+            truth.append(("fail", f"err-{i}"))
+    base = {"prog": {"body": [{"op": "parallel", "branches": branches, "cfg": {"max_concurrency": None, "completion": comp}}]},
+            "c09": {"path": "root/0", "n": 3, "eff": norm_cfg(comp), "truth": truth, "mc": None, "kinds": kinds, "is_map": False},
+            "backend": {"response": "delta"}, "plan": {"crashes": []}, "line": ["executor", "models"]}
+    WC.line_preempt_sweep(ctx, base, PROPS, nontrivial=nontrivial, classes=lambda r_, c_: ["one-long-preemption-at-a-line"], extra_monitors=(mon_c09,),
+                          limit=ctx.budget.get("bounded_runs", 600),
+                          label=f"one long preemption at each executed line of executor/models, parallel {kinds} {_json.dumps(comp)}")
 
 
 # --------------------------------------------------------------------------- pure half: counters vs classifier
@@ -310,7 +339,7 @@ def _pure_stage(ctx):
     ctx.extra["pure_policy_exhaustive"] = True
 
 
-install(globals(), props=("C09",), cases=cases, nontrivial=nontrivial, classes=classes, extra_monitors=(mon_c09,), stages=(_pure_stage, _race_stage))
+install(globals(), props=("C09",), cases=cases, nontrivial=nontrivial, classes=classes, extra_monitors=(mon_c09,), stages=(_pure_stage, _race_stage, _bounded_race_stage))
 _wf_replay = replay  # noqa: F821
 
 
